@@ -10,6 +10,7 @@ mod eval;
 mod interp;
 mod ops;
 mod prog;
+mod serde_model;
 mod solver;
 mod term;
 mod value;
